@@ -415,3 +415,41 @@ def combine(vd, failed, nat, key_to_functions=None, undecided_prefix=""):
         if i not in used:
             vd.add_violation(v["key"], v["what"], obligation="bounded executable contract (no failing proof obligation)", counterexample=v.get("replay"),
                              expected=v.get("expected"), actual=v.get("actual"))
+
+
+def run_vacuity_probes(ctx, unit_name):
+    """Thorough tier: every `assert(false)` placed right after a function's preconditions, or after one of its loops,
+    must FAIL; one that verifies means a contradictory requires-clause or invariant (the proof would be vacuous).
+    One variant per probe position (function start, loop ordinal 0, 1, ...), because a failed assert is assumed afterwards."""
+    from . import unit_det
+    tab = unit_det.load_table(unit_name)
+    nloops = max([len(e.get("loops", [])) for e in tab.FUNCTIONS] + [0])
+    expected, hit, errors = [], set(), []
+    variants = ["start"] + list(range(nloops))
+
+    def one(which):
+        probe = {"which": which, "tags": []}
+        try:
+            u = unit_det.build(C.Ctx(), unit_name, None, probe=probe)
+        except (C.LostAnchor, C.Unsupported) as e:
+            return probe["tags"], set(), str(e)
+        path = os.path.join(BUILD, "units", "%s_probe_%s.rs" % (unit_name, which))
+        os.makedirs(os.path.dirname(path), exist_ok=True)
+        open(path, "w").write(u.render())
+        r = V.run(path, extra=["--multiple-errors", "60"])
+        h = set()
+        for e in r["errors"]:
+            if e["line"] and "assertion failed" in e["msg"]:
+                loc = u.locate(e["line"], e["col"])
+                if loc.get("kind") == "inserted" and (loc.get("tag") or "").startswith("probe:"):
+                    h.add(loc["tag"])
+        return probe["tags"], h, None
+
+    with cf.ThreadPoolExecutor(max_workers=6) as ex:
+        for tags, h, err in ex.map(one, variants):
+            expected += tags
+            hit |= h
+            if err:
+                errors.append(err)
+    vac = [p for p in expected if p not in hit]
+    return {"unit": unit_name, "expected": len(expected), "failed_as_expected": len(hit), "vacuous": vac, "errors": errors}
